@@ -570,6 +570,7 @@ pub fn c06_filter(out: &mut Out, rng: &mut Rng, tier: &Tier) {
     c06_type::<Kmer16, u8>(out, rng, tier, nb, &mut nf);
     c06_type::<VarIntKmer<u64, K31>, u32>(out, rng, tier, nb, &mut nf);
     c06_type::<Kmer32, u8>(out, rng, tier, nb, &mut nf);
+    c06_type::<VarIntKmer<u8, K4>, u8>(out, rng, tier, ns, &mut nf);
     let s: Vec<String> = nf.iter().map(|(p, c)| format!("{}:{}", p, c)).collect();
     out.comment(&format!("stat flipped_reads_histogram (flipped:cases) {}", s.join(" ")));
 }
